@@ -132,9 +132,24 @@ func c17prop(r *simkit.Run) {
 				what, got, now(), time.Duration(n-1)*res, lo, time.Duration(n)*res, hi, n, res, epoch)
 		}
 	}
+	// counter mode works on a small population: the first counter plus clones that are
+	// kept and used later (RTMetrics.Export hands such copies out), each with its own history
+	type inst struct {
+		c   *memmetrics.RollingCounter
+		evs []inc
+		id  int
+	}
+	insts := []*inst{{c: c}}
+	keptClones, appends := 0, 0
+	pick := func(label string) *inst {
+		if len(insts) == 1 {
+			return insts[0]
+		}
+		return insts[rapid.IntRange(0, len(insts)-1).Draw(rt, label)]
+	}
 	nops := rapid.IntRange(3, deep(120, 600)).Draw(rt, "ops")
 	for i := 0; i < nops; i++ {
-		switch rapid.SampledFrom([]string{"inc", "inc", "inc", "read", "read", "step", "step", "reset", "clone"}).Draw(rt, "op") {
+		switch rapid.SampledFrom([]string{"inc", "inc", "inc", "read", "read", "step", "step", "reset", "clone", "append"}).Draw(rt, "op") {
 		case "inc":
 			v := rapid.IntRange(0, 5).Draw(rt, "v")
 			if ratioMode {
@@ -148,9 +163,10 @@ func c17prop(r *simkit.Run) {
 					note("IncB(%d)", v)
 				}
 			} else {
-				c.Inc(v)
-				evsA = append(evsA, inc{now(), int64(v)})
-				note("Inc(%d)", v)
+				in := pick("which")
+				in.c.Inc(v)
+				in.evs = append(in.evs, inc{now(), int64(v)})
+				note("#%d.Inc(%d)", in.id, v)
 			}
 		case "read":
 			if ratioMode {
@@ -182,9 +198,10 @@ func c17prop(r *simkit.Run) {
 					checkCount("CountB()", b, evsB)
 				}
 			} else {
-				got := c.Count()
-				note("Count()=%d", got)
-				checkCount("Count()", got, evsA)
+				in := pick("which")
+				got := in.c.Count()
+				note("#%d.Count()=%d", in.id, got)
+				checkCount(fmt.Sprintf("#%d.Count()", in.id), got, in.evs)
 			}
 		case "step":
 			d := drawStep(rt, n, res)
@@ -197,17 +214,41 @@ func c17prop(r *simkit.Run) {
 			if rapid.IntRange(0, 3).Draw(rt, "really") == 0 {
 				if ratioMode {
 					rc.Reset()
+					evsA, evsB = nil, nil
+					note("Reset()")
 				} else {
-					c.Reset()
+					in := pick("which")
+					in.c.Reset()
+					in.evs = nil
+					note("#%d.Reset()", in.id)
 				}
-				evsA, evsB = nil, nil
-				note("Reset()")
 			}
 		case "clone":
 			if !ratioMode {
-				got := c.Clone().Count()
-				note("Clone().Count()=%d", got)
-				checkCount("Clone().Count()", got, evsA)
+				src := pick("which")
+				cl := src.c.Clone()
+				got := cl.Count()
+				note("#%d.Clone().Count()=%d", src.id, got)
+				checkCount("Clone().Count()", got, src.evs)
+				if len(insts) < 4 && rapid.Bool().Draw(rt, "keep-clone") {
+					insts = append(insts, &inst{c: cl, evs: append([]inc(nil), src.evs...), id: len(insts)})
+					keptClones++
+					note("clone of #%d kept as #%d", src.id, len(insts)-1)
+				}
+			}
+		case "append":
+			if !ratioMode && len(insts) > 1 {
+				a, b := pick("into"), pick("from")
+				if a != b {
+					got := b.c.Count()
+					checkCount(fmt.Sprintf("#%d.Count()", b.id), got, b.evs)
+					if err := a.c.Append(b.c); err != nil {
+						r.Fail("append-refused", "#%d.Append(#%d): %v", a.id, b.id, err)
+					}
+					a.evs = append(a.evs, inc{now(), got})
+					appends++
+					note("#%d.Append(#%d) adds %d", a.id, b.id, got)
+				}
 			}
 		}
 	}
@@ -217,6 +258,8 @@ func c17prop(r *simkit.Run) {
 	}
 	r.ProbeN("reads", reads)
 	r.ProbeN("multi-window-gap", gaps)
+	r.ProbeN("clone-kept-and-used-later", keptClones)
+	r.ProbeN("append", appends)
 	if res != time.Second {
 		r.Probe("resolution!=1s")
 	}
